@@ -202,7 +202,7 @@ def run_path(repo, registry, func: VFunc, contract, prefix, feas_ms):
         if outcome[0] == "normal":
             values["result"] = outcome[1]
             for en in exc_names:
-                cond = it.truthy(it.eval_contract_fn(contract, "raises_" + en, dict(bound), fr.entry_heap, fr.entry_env))
+                cond = it.truthy(it.eval_contract_fn(contract, "raises_" + en, dict(bound), fr.entry_heap, fr.entry_env, in_old_state=True))
                 path.oblige(f"{fr.qualname}#noraise:{en}", z3.Not(cond), line=line, kind="raises")
             if "ensures" in contract.funcs:
                 post = it.truthy(it.eval_contract_fn(contract, "ensures", values, fr.entry_heap, fr.entry_env))
@@ -222,7 +222,7 @@ def run_path(repo, registry, func: VFunc, contract, prefix, feas_ms):
                     matched = en
                     break
             if matched is not None:
-                cond = it.truthy(it.eval_contract_fn(contract, "raises_" + matched, dict(bound), fr.entry_heap, fr.entry_env))
+                cond = it.truthy(it.eval_contract_fn(contract, "raises_" + matched, dict(bound), fr.entry_heap, fr.entry_env, in_old_state=True))
                 path.oblige(f"{fr.qualname}#raises:{matched}", cond, line=line, kind="raises")
                 if ("exc_" + matched) in contract.funcs:
                     path.oblige(
@@ -262,7 +262,9 @@ def _path_job(prefix):
     try:
         path, it, info = run_path(repo, registry, func, contract, prefix, feas_ms)
     except Unsupported as e:
-        out["unsupported"].append(str(e))
+        import os as _os
+
+        out["unsupported"].append(str(e) + ("\n" + traceback.format_exc(limit=-6) if _os.environ.get("PYVC_TRACE") else ""))
         return out
     except RecursionError:
         out["unsupported"].append("recursion limit in symbolic execution")
